@@ -574,3 +574,109 @@ Proof.
   all: try (right; right; rewrite ?PC; repeat split; auto; intros; try discriminate;
             destruct (Nat.ltb _ _); simpl in *; auto; discriminate).
 Qed.
+
+(* ------------------------------------------------------------------ the exclusive lock is held only inside the critical section *)
+Definition lockpc (p : pc) : bool := inCS p || match p with PConflict => true | _ => false end.
+
+Definition L1 (c : cfg) (w : world) : Prop :=
+  lockkind c = Excl -> forall a, w_lock w = Some a -> lockpc (a_pc (w_actors w a)) = true.
+
+Lemma step_L1 c w e w' : L1 c w -> step c w e = Some w' -> L1 c w'.
+Proof.
+  intros L H LK b Hb. specialize (L LK). unfold step in H. rewrite LK in H.
+  destruct (e_kind e) as [v|ok| |v ok|now|ok|ok| | | ]; destruct (a_pc (w_actors w (e_actor e))) eqn:PC; try discriminate;
+    try (destruct ok);
+    repeat match goal with
+           | H : (if ?x then _ else _) = Some _ |- _ => destruct x eqn:?; try discriminate
+           end;
+    inversion H; subst w'; clear H; simpl in *;
+    try (destruct (Nat.eq_dec b (e_actor e)) as [E|NE];
+         [ subst b; rewrite upd_same; simpl; try reflexivity;
+           try (destruct (w_lock w) as [b0|] eqn:WL; try discriminate;
+                destruct (Nat.eqb_spec (e_actor e) b0); try discriminate; inversion Hb; congruence);
+           try (pose proof (L _ Hb) as X; rewrite PC in X; simpl in X; try discriminate; auto; fail);
+           try (destruct (Nat.ltb _ _); simpl; auto)
+         | rewrite upd_other by exact NE;
+           try (apply L; exact Hb);
+           try (inversion Hb; congruence);
+           try (destruct (w_lock w) as [b0|] eqn:WL; try discriminate;
+                destruct (Nat.eqb_spec (e_actor e) b0); try discriminate; inversion Hb; subst; apply L; reflexivity) ]);
+    try (apply L; exact Hb).
+  all: try (unfold lock_free_for in *; rewrite LK in *; destruct (w_lock w); discriminate).
+Qed.
+
+(* ------------------------------------------------------------------ liveness: an idle committer can always run to success *)
+Lemma stamp_eqb_refl m : stamp_eqb m m = true.
+Proof. unfold stamp_eqb. rewrite !Z.eqb_refl. reflexivity. Qed.
+
+Definition commit_script (b : aid) (ptr : vid) (now : Z) : list event :=
+  [ {| e_actor := b; e_kind := EBegin ptr |}; {| e_actor := b; e_kind := ELockTry true |};
+    {| e_actor := b; e_kind := EValidate ptr true |}; {| e_actor := b; e_kind := EMetaW now |};
+    {| e_actor := b; e_kind := EFence true |}; {| e_actor := b; e_kind := EFlip true |};
+    {| e_actor := b; e_kind := ERelease |} ].
+
+Ltac stepsimp := unfold with_actor; unfold step at 1; cbv beta zeta;
+  cbn [e_actor e_kind w_actors w_ptr w_files w_lock w_hist w_repl with_actor set_pc
+       a_pc a_kind a_opid a_base a_cur a_etag a_new a_attempt a_maxr];
+  rewrite ?upd_same;
+  cbn [e_actor e_kind w_actors w_ptr w_files w_lock w_hist w_repl with_actor set_pc
+       a_pc a_kind a_opid a_base a_cur a_etag a_new a_attempt a_maxr].
+
+Lemma can_commit c w b now :
+  a_pc (w_actors w b) = PIdle -> (lockkind c = GrantAll \/ w_lock w = None) ->
+  exists w', run_strict c w (commit_script b (w_ptr w) now) 0 = inl w'
+             /\ a_pc (w_actors w' b) = PDone Success
+             /\ w_hist w' = w_hist w ++ [(length (w_files w), b)]
+             /\ w_ptr w' = length (w_files w).
+Proof.
+  intros PC LF. unfold commit_script, run_strict.
+  (* 1. EBegin *)
+  stepsimp. rewrite PC, Nat.eqb_refl.
+  (* 2. ELockTry *)
+  stepsimp.
+  assert (LFF : forall acts, lock_free_for c {| w_ptr := w_ptr w; w_files := w_files w; w_lock := w_lock w; w_hist := w_hist w;
+                                                 w_repl := w_repl w; w_actors := acts |} b = true).
+  { intro acts. unfold lock_free_for. cbn. destruct LF as [G|N]; [rewrite G; reflexivity | rewrite N; destruct (lockkind c); reflexivity]. }
+  rewrite LFF.
+  (* 3. EValidate *)
+  stepsimp. rewrite Nat.eqb_refl. unfold file at 1 2. cbn [w_files andb]. rewrite stamp_eqb_refl. cbn [Bool.eqb].
+  (* 4. EMetaW *)
+  stepsimp.
+  (* 5. EFence *)
+  stepsimp.
+  assert (HOLD : forall p f h r acts, holds c {| w_ptr := p; w_files := f;
+                     w_lock := match lockkind c with GrantAll => w_lock w | _ => Some b end;
+                     w_hist := h; w_repl := r; w_actors := acts |} b = true).
+  { intros. unfold holds. cbn. destruct (lockkind c); try reflexivity. apply Nat.eqb_refl. }
+  rewrite HOLD. cbn [Bool.eqb].
+  (* 6. EFlip *)
+  stepsimp. rewrite Nat.eqb_refl. replace (Bool.eqb true (if cas c then true else true)) with true by (destruct (cas c); reflexivity).
+  (* 7. ERelease *)
+  stepsimp.
+  eexists. split; [reflexivity|]. cbn [w_actors w_hist w_ptr]. rewrite upd_same. cbn [a_pc].
+  repeat split; reflexivity.
+Qed.
+
+Lemma run_L1 c w evs : L1 c w -> L1 c (run c w evs).
+Proof.
+  revert w. induction evs as [|e l IH]; intros w L; [exact L|]. rewrite run_cons. apply IH. unfold step_skip.
+  destruct (step c w e) eqn:St; [eapply step_L1; eauto | exact L].
+Qed.
+
+Lemma init_L1 c m0 kind mr : L1 c (init_world m0 kind mr).
+Proof. intros _ a H. simpl in H. discriminate. Qed.
+
+(* a finished (in particular: dead) operation does not hold the exclusive lock *)
+Lemma lock_released c m0 kind mr evs a o :
+  lockkind c = Excl -> a_pc (w_actors (run c (init_world m0 kind mr) evs) a) = PDone o ->
+  w_lock (run c (init_world m0 kind mr) evs) <> Some a.
+Proof.
+  intros LK P Hl. pose proof (run_L1 c _ evs (init_L1 c m0 kind mr) LK a Hl) as X. rewrite P in X. discriminate.
+Qed.
+
+(* under an exclusive lock: if nobody is inside the critical section the lock is free *)
+Lemma lock_free_when_idle c w :
+  L1 c w -> lockkind c = Excl -> (forall a, lockpc (a_pc (w_actors w a)) = false) -> w_lock w = None.
+Proof.
+  intros L LK Idle. destruct (w_lock w) as [a|] eqn:E; auto. pose proof (L LK a E) as X. rewrite Idle in X. discriminate.
+Qed.
